@@ -51,8 +51,10 @@ def spectrum(opts):
     return out
 
 
-def num(x: float, dec: str) -> str:
+def num(x: float, dec: str, fmt: str = "full") -> str:
     s = repr(float(x))
+    if fmt == "short" and float(x).is_integer() and abs(x) < 1e15:
+        s = str(int(x))              # whole numbers without a decimal mark, as spreadsheet exports write them
     return s.replace(".", ",") if dec == "," else s
 
 
@@ -73,7 +75,7 @@ def write_table(path, hdr, opts):
                      "phase": math.degrees(cmath.phase(z))}[c["role"]]
                 if c["marker"]:
                     v = -v
-                row.append(num(v, opts["dec"]))
+                row.append(num(v, opts["dec"], opts.get("num", "full")))
             lines.append(sep.join(row))
     with open(path, "w", encoding="utf-8") as fh:
         fh.write("\n".join(lines) + "\n")
@@ -248,12 +250,42 @@ def selftest() -> int:
     ok = (not r1) and len(got) == 2 and complex(got[0].get_impedances()[0]).imag != 0
     res = run_tlc("Table", cfg_text("polar", "single", "few", invs=("SplitOK", "SplitTotal", "DetectedAsIntended")))
     ok = ok and res.ok
+    # dispatch: a parser that wrongly accepts foreign content must be caught by TLC for *some* brute-force order,
+    # and a corrupted recorded call must be rejected by the trace validation
+    from . import dispatch
+    work = scratch_dir("c06-dispatch-self")
+    try:
+        paths = dispatch.write_contents(work)
+        acc, right, uns = dispatch.measure(paths)
+        bad = dispatch.measured_module(acc | {("i2b", "dta")}, right, uns)
+        res = run_tlc("Dispatch", dispatch.MC_CFG, extra_modules={"DispatchMeasured.tla": bad})
+        ok3 = res.violated == "WinnerIsRight"
+        good = dispatch.run_one(({"content": "p00", "ext": ".p00", "fmt": ""}, paths["p00"], work))
+        wrong = {"cfg": good["cfg"], "events": [{"ev": "call", "p": "mpt"}] + good["events"][1:]}
+        vv = Verdict("C06", "quick", 0)
+        rej = dispatch.validate(vv, [good, wrong], dispatch.measured_module(acc, right, uns))
+        ok4 = 0 not in rej and 1 in rej
+    finally:
+        shutil.rmtree(work, ignore_errors=True)
+    ok = ok and ok3 and ok4
     shutil.rmtree(_workdir(), ignore_errors=True)
-    print("selftest C06:", "ok" if ok else f"FAILED {r1}")
+    print("selftest C06:", "ok" if ok else f"FAILED {r1} dispatch-model={ok3} dispatch-binding={ok4}")
     return 0 if ok else 2
 
 
 def replay(case) -> int:
+    if "dispatch" in case.get("case", {}):
+        from . import dispatch
+        ensure_repo_on_path()
+        work = scratch_dir("c06-dispatch-replay")
+        try:
+            cfg = case["case"]["dispatch"]
+            r = dispatch.run_one((cfg, dispatch.write_contents(work)[cfg["content"]], work))
+        finally:
+            shutil.rmtree(work, ignore_errors=True)
+        print("replay C06:", cfg, "->", r["events"])
+        end = r["events"][-1]
+        return 0 if end.get("right") or not dispatch.documented(cfg) else 1
     from .common import replay_state
     return replay_state(judge_state, case, "C06")
 
@@ -286,12 +318,19 @@ def run(tier: str, seed: int) -> int:
             finally:
                 cleanup(res)
         cli_roundtrip(v)
+        # parse_data's dispatch by extension / file_format and its fallbacks (specs/Dispatch.tla)
+        from . import dispatch
+        before = v.replayed
+        dispatch.run(v, tier, seed)
+        v.nontrivial += v.replayed - before
     finally:
         shutil.rmtree(_workdir(), ignore_errors=True)
         os.environ.pop("C06_WORKDIR", None)
     v.evaluations = v.nontrivial
     v.extra["rule"] = ("configurations = states of specs/Table.tla (header row x file options); the listed fraction of them (chosen by a hash "
-                       "with VERIF_SEED) is written as a real file and parsed; non-trivial = files actually written and parsed")
+                       "with VERIF_SEED) is written as a real file and parsed; non-trivial = files actually written and parsed; plus the "
+                       "configurations of specs/Dispatch.tla (content x extension x file_format; TLC explores every order of the brute-force "
+                       "loop), each run through parse_data with the parser calls recorded and validated by TLC (TraceDispatch.tla)")
     v.assumptions += ["one fixed family of spectra (both signs of Re and Im, 12 decades); pandas' own tokenising is exercised, not modelled",
                       "instrument layouts are written from the structure of the sample files in tests/"]
     return v.finish()
